@@ -412,6 +412,7 @@ class POXCore (EventMixin):
 
     self._add_signal_handlers()
 
+    self._go_up_ready = True
     if not self._go_up_deferrals:
       self._goUp_stage2()
 
@@ -428,7 +429,7 @@ class POXCore (EventMixin):
       if o not in self._go_up_deferrals:
         raise RuntimeError("This deferral has already been executed")
       self._go_up_deferrals.remove(o)
-      if not self._go_up_deferrals:
+      if not self._go_up_deferrals and getattr(self, '_go_up_ready', False):
         log.debug("Continuing to go up")
         self._goUp_stage2()
 
